@@ -438,8 +438,11 @@ func c11Servers(p *ana.Prog, r *ana.Result) {
 					}
 					for _, r3 := range ana.Referrers(recv) {
 						if s3, ok := r3.(*ssa.Store); ok && s3.Addr == ssa.Value(recv) {
-							if e, ok := s3.Val.(*ssa.Extract); ok && e.Tuple == ssa.Value(encCall) && e.Index == 0 && ec.Block() == c.Block() {
-								appOK = true
+							// sealed, stored, encoded and appended in this order within one iteration
+							if e, ok := s3.Val.(*ssa.Extract); ok && e.Tuple == ssa.Value(encCall) && e.Index == 0 {
+								if ana.InstrDominates(encCall, s3) && ana.InstrDominates(s3, ec) && ana.InstrDominates(ec, c) {
+									appOK = true
+								}
 							}
 						}
 					}
